@@ -39,6 +39,7 @@ def must_see(tier):
                   'op:&', 'op:-', 'op:^', 'iop:|=', 'iop:&=', 'iop:-=',
                   'iop:^=', 'none-operand'):
             m['%s:%s' % (impl, f)] = 10
+        m[impl + ':ghost-operands'] = 20
     return m
 
 
@@ -198,6 +199,13 @@ def run_case(fam, impl, rng, rec, uni, vals, i):
     snap_a = setops.snapshot(a) if not form.startswith('iop') else None
     snap_b = setops.snapshot(b) if b is not a else None
     rec.journal(repr((desc, kinda, kindb, brief(ka, 200), brief(kb, 200))))
+    keep_conns = None
+    if i % 5 in (0, 1):
+        # operands as they come out of a database: ghosts
+        keep_conns, ng = setops.store_and_ghostify(
+            [x for x in (a, b) if type(x).__name__.replace('Py', '').endswith(
+                ('BTree', 'TreeSet', 'Bucket', 'Set'))], rec, impl + ':')
+        desc['ghost_operands'] = ng
     try:
         r = apply_form(fam, impl, form, a, b)
     except Exception as e:
